@@ -22,12 +22,16 @@ LEVEL_TEXT = ("Theorems in Lean: prepending k newlines to a block's text moves e
               "definitions (decidable predicate inDoc); scan_block_lines: every line of the padded source of every block is the document's own line of that "
               "number minus its indentation; doc_error_line: a compile error in a block is reported with the number of the document line that holds the "
               "offending text - for every document of D, with no observed hypothesis; the scanner is compared exactly with marko (kind, language, pos, "
-              "captured source, padded source, start line) on generated documents of D.")
-LEVEL_NOTE = ("Partial: outside the sub-language D (recipe blocks inside list items and block quotes, tabs, HTML blocks ...) the theorems rest on the "
+              "captured source, padded source, start line) on generated documents of D. Containers (C19e): scanBlocks2 / inDoc2 extend the scanner to one "
+              "level of block quote or list item (sub-language D2, a conservative extension: scan2_conservative); scan2_block_lines: the padded line is the "
+              "document line minus the container prefix (spaces, or <= 3 spaces + '>' + <= 1 space) and minus <= 3 (fence) / <= 4 (indented) spaces; "
+              "doc2_error_line: the reported line is the document line of the offending text, the column shifted by exactly the removed prefix - for every "
+              "document of D2, no observed hypothesis; compared exactly with marko.")
+LEVEL_NOTE = ("Partial: outside the sub-language D2 (nested containers, tabs, HTML blocks, empty list items ...) the theorems rest on the "
               "per-document hypothesis H_marko (the captured source is the block's lines with one prefix removed per line; pos is the offset of the first code "
-              "line resp. the fence line), which is marko's behaviour and is observed per generated document, not proved; inside D that hypothesis is replaced by "
-              "the scanner model, tied to marko by exact correspondence (that scanBlocks equals marko is validated, not proved). Trusted: Lean kernel.")
-LEAN_MODULES = ["RecipeGrid.Props.C19", "RecipeGrid.Props.C19b", "RecipeGrid.Props.C19c", "RecipeGrid.Props.C19d"]
+              "line resp. the fence line), which is marko's behaviour and is observed per generated document, not proved; inside D2 that hypothesis is replaced by "
+              "the scanner model, tied to marko by exact correspondence (that scanBlocks2 equals marko is validated, not proved). Trusted: Lean kernel.")
+LEAN_MODULES = ["RecipeGrid.Props.C19", "RecipeGrid.Props.C19b", "RecipeGrid.Props.C19c", "RecipeGrid.Props.C19d", "RecipeGrid.Props.C19e"]
 SOURCES = ["recipe_grid/markdown.py", "recipe_grid/compiler.py"]
 RULE = ("documents of C13 (top level / list item / block quote x indented / fenced with either fence character, several blocks and independent recipes) with "
         "one injected fault (redefinition, proportion of an unknown name, stray token) at a random statement of a random block; LF and CRLF line endings; "
@@ -201,6 +205,19 @@ def scanner_correspondence(run):
         run.disagree("md-blocks:" + d[0], d[1], repr(d[2])[:600], repr(d[3])[:600])
     for t, bad in r["prop_fail"][:10]:
         run.disagree("md-blocks:line-property", t, repr(bad[:2])[:600], "scan_block_lines")
+    # C19e: the same with one level of container (block quotes, list items): scanBlocks2 / inDoc2
+    from .. import mdcontainers_corr
+    r = mdcontainers_corr.collect(run.seed * 104729 + 20260930, run.budget(300, 6000), run.budget(200, 4000), ask=run.ask)
+    n_in = sum(r["in_d_by_group"].values())
+    run.groups["marko code blocks inside block quotes / list items vs scanBlocks2, documents in D2"] += n_in
+    for k, v in r["dist"].items():
+        run.dist["md-blocks2:" + k] += v
+    run.evaluations += r["docs"]
+    run.note("container scanner: %d distinct documents, %d in D2; outside D2 (no claim) model and marko differ on %r" % (r["docs"], n_in, dict(r["outside_disagree"])))
+    for d in r["disagreements"][:20]:
+        run.disagree("md-blocks2:" + d[0], d[1], repr(d[2])[:600], repr(d[3])[:600])
+    for t, bad in r["prop_fail"][:10]:
+        run.disagree("md-blocks2:line-property", t, repr(bad[:2])[:600], "scan2_block_lines")
 
 
 def syntax_position_correspondence(run):
